@@ -644,8 +644,13 @@ def decide_case(case, opts):
         res["goals"] += len(goals)
         path_goals[pi] = goals
         if res["sample"] is None:
-            res["sample"] = {"sig": case.sig, "path_condition": ["N%d %s 0" % (d.id, r) for d, r in pr.pc][:6],
+            res["sample"] = {"sig": case.sig, "path_condition": ["%s %s 0" % (sc.node_str(d, 3), r) for d, r in pr.pc][:6],
                              "goal_pairs": len(goals), "vars": len(CTX.vars)}
+            for l, i, a, b in goals:
+                if b is not None and a is not b:
+                    res["sample"]["example_obligation"] = {"what": "%s[%d]" % (l, i), "code_term": sc.node_str(a, 5)[:300],
+                                                           "oracle_term": sc.node_str(b, 5)[:300]}
+                    break
         for label, ok, detail in badfacts:
             res["obligations"] += 1
             cand = {"label": label, "kind": "fact", "detail": detail, "point": _clean(pr.model)}
